@@ -456,12 +456,13 @@ def c17(ctx):
     dig = [c for c in cases if c["what"] == "digest"]
     if ctx.quick():
         dig = [c for c in dig if c["msglen"] in (0, 56, 1000) or c["alg"] in (-7, -37)]
-    events = harness(ctx, ["exec", "factory"], fac) + harness(ctx, ["exec", "digest"], dig)
+    # the factory matrix is run twice in one process, serially: a verdict must not depend on what was constructed before
+    events = harness(ctx, ["exec", "factory"], fac + list(reversed(fac)) + fac, env=dict(VERIF_SERIAL="1")) + harness(ctx, ["exec", "digest"], dig)
     rejects = judge(ctx, "Trace_C17", events)
     return report(ctx, events, rejects,
                   nontrivial=lambda e: True,
                   key=lambda e: json.dumps({k: v for k, v in e.items() if k not in ("res", "reported", "nilresult", "sign", "verify", "stdv", "panic")}, sort_keys=True),
-                  rule="TLC enumerates the full factory matrix (7 built-in + 3 RS* + reserved + unknown + private-use + hash algorithm ids x 14 signer key kinds / 15 "
+                  rule="(factory matrix executed three times in one process, forwards, backwards, forwards, so that verdicts cannot depend on earlier calls) TLC enumerates the full factory matrix (7 built-in + 3 RS* + reserved + unknown + private-use + hash algorithm ids x 14 signer key kinds / 15 "
                        "public-key kinds: RSA 1024/2047/2048/3072, ECDSA P-224/256/384/521, off-curve and infinity points, value-typed keys, Ed25519, opaque and "
                        "foreign crypto.Signers) and the digest-equivalence space (6 algorithms x message lengths x Sign/SignDigest x Verify/VerifyDigest x every "
                        "hash x native/opaque key); the real factories and entry points run; TLC compares with the decision tables of CoseCrypto.tla",
